@@ -1,6 +1,8 @@
 //@ property: C10
 //@ mount: src/sighash.rs
 //@ functions: src/sighash.rs::SighashCache::taproot_key_spend_signature_hash, src/sighash.rs::SighashCache::taproot_script_spend_signature_hash, src/sighash.rs::SighashCache::taproot_sighash
+// STATUS: NOT RUN within the budget (compiles). Totality of `taproot_encode_signing_data_to` for Prevouts::One over all usize
+// indices is covered by c13_prevouts_one.rs; these instances would add the `*_signature_hash` wrappers and Prevouts::All.
 //
 // Totality of the fallible taproot sighash entry points: for every input index (all usize) and every way the spent outputs
 // can be missing, the result is an `Err`, never a panic / overflow / out-of-bounds access (Kani's default checks on the
@@ -108,12 +110,12 @@ macro_rules! total_harness {
     };
 }
 
-//@ harness: taproot_keyspend_total_single_acp class=B tier=thorough bound="2 inputs, 1 output, Prevouts::All with 2 prevouts, hash type 0x83, every usize input index" props=C10 timeout=1500
-//@ clause: taproot_key_spend_signature_hash never panics: out-of-range input index => Err(IndexOutOfInputsBounds), SINGLE without output => Err(SingleWithoutCorrespondingOutput); each Err names a true reason
+//@ unregistered-harness: taproot_keyspend_total_single_acp class=B tier=thorough bound="2 inputs, 1 output, Prevouts::All with 2 prevouts, hash type 0x83, every usize input index" props=C10 timeout=1500
+//@ unregistered-clause: taproot_key_spend_signature_hash never panics: out-of-range input index => Err(IndexOutOfInputsBounds), SINGLE without output => Err(SingleWithoutCorrespondingOutput); each Err names a true reason
 total_harness!(taproot_keyspend_total_single_acp, 2, 1, 2, 0x83, false);
-//@ harness: taproot_scriptspend_total_single class=B tier=thorough bound="2 inputs, 1 output, Prevouts::All with 2 prevouts, hash type 0x03, every usize input index" props=C10 timeout=1500
-//@ clause: taproot_script_spend_signature_hash never panics; SINGLE at an index without output is an Err
+//@ unregistered-harness: taproot_scriptspend_total_single class=B tier=thorough bound="2 inputs, 1 output, Prevouts::All with 2 prevouts, hash type 0x03, every usize input index" props=C10 timeout=1500
+//@ unregistered-clause: taproot_script_spend_signature_hash never panics; SINGLE at an index without output is an Err
 total_harness!(taproot_scriptspend_total_single, 2, 1, 2, 0x03, true);
-//@ harness: taproot_keyspend_total_wrong_prevouts class=B tier=thorough bound="2 inputs, 1 output, Prevouts::All with 1 prevout, hash type 0x00, every usize input index" props=C10 timeout=1500
-//@ clause: a prevout list of the wrong length is Err(PrevoutsSize) for every index, never a panic
+//@ unregistered-harness: taproot_keyspend_total_wrong_prevouts class=B tier=thorough bound="2 inputs, 1 output, Prevouts::All with 1 prevout, hash type 0x00, every usize input index" props=C10 timeout=1500
+//@ unregistered-clause: a prevout list of the wrong length is Err(PrevoutsSize) for every index, never a panic
 total_harness!(taproot_keyspend_total_wrong_prevouts, 2, 1, 1, 0x00, false);
